@@ -53,7 +53,7 @@ def configure_alignment(reaction, alignment):
     from ampform.helicity.align.dpd import DalitzPlotDecomposition, relabel_edge_ids
 
     off = 0
-    if alignment.startswith("dpd"):
+    if alignment.startswith("dpd") or alignment == "relabel":
         reaction = relabel_edge_ids(reaction)
         off = 1
     b = ampform.get_builder(reaction)
